@@ -107,6 +107,19 @@ func main() {
 			os.Exit(2)
 		}
 		rp := runner.NewReport(prop, tier)
-		os.Exit(run(rp))
+		code := func() (code int) {
+			defer func() {
+				if x := recover(); x != nil {
+					// the library behaved in a way the checker's own bookkeeping did not survive (on the unchanged tree this never
+					// happens): report it as a violation with the panic as evidence rather than dying
+					rp.Violation(&runner.ReplayFile{Scenario: "check-" + prop, Sig: "check-panicked", Kind: "panic",
+						Msg:     fmt.Sprintf("the check panicked while driving the library: %v", x),
+						OpsText: strings.Split(string(debug.Stack()), "\n")})
+					code = rp.Finish("model_checking", []string{"the check did not complete: it panicked while driving the library"}, nil)
+				}
+			}()
+			return run(rp)
+		}()
+		os.Exit(code)
 	}
 }
